@@ -14,7 +14,7 @@ from . import ir
 from .report import m_drop_stmt, m_replace
 
 META = {
-    "level": "proof",
+    "level": "other",
     "explanation": (
         "Proof-shaped argument over all completion orders: each output is a pure function of exactly one input item. "
         "Decided from the type-checked closures: (P1) the spawned future returns a tuple whose first component is the "
@@ -24,7 +24,7 @@ META = {
         "data; (P3) the adapters between source and `boxed()` are map/then/buffered/buffer_unordered/filter_map/flatten only, "
         "post-spawn closures capture nothing, never build a coordinate, and drop an item only for a None result (or JoinError "
         "in the generator); (P4) for_each_buffered pushes every pulled item and flushes full and final buffers. Hence the "
-        "multiset of (coordinate, result) pairs is independent of scheduling."),
+        "multiset of (coordinate, result) pairs is independent of scheduling. (Claimed as `proof` for most of the session; lowered to `other` after the seeded changes C14e and C14f showed obligations missing from the list - the plain consumers and constructors; P5 and P6 were added. The argument is proof-shaped for the operators it lists, not a proof for the type.)"),
     "not_decided": "that futures' adapters and tokio::spawn deliver each future's output exactly once (trusted); panics inside user callbacks (map_blob_parallel propagates them by expect).",
     "trusted_base": ["futures-util stream adapters", "tokio::spawn/JoinHandle", "rustc closure capture analysis"],
 }
